@@ -363,3 +363,29 @@ func monitorC14(cs *C14Scenario, out *UCIOutcome, windows []*goWindow) (vs []Vio
 }
 
 func c14Margin() int64 { return int64(uci.TimeSafetyMargin) }
+
+// c14Grid enumerates the dense boundary grid of the property's quantifier:
+// every boundary value of the remaining time, combined with no increment, a
+// zero, a small, a medium and a dominating increment, both colours, and the
+// plain / movetime variants. Runs of leg c14-grid walk through it slice by
+// slice, so a check covers it completely (the evidence says how often).
+func c14Grid() []c14Case {
+	var out []c14Case
+	for _, own := range c14Boundary() {
+		incs := []struct {
+			has bool
+			inc int64
+		}{{false, 0}, {true, 0}, {true, 1}, {true, own/2 + 1}, {true, own}, {true, 2*own + 7}, {true, 1_000_000_000}}
+		for _, ic := range incs {
+			if ic.inc > 1_000_000_000 {
+				continue
+			}
+			for _, white := range []bool{true, false} {
+				out = append(out, c14Case{White: white, Own: own, OwnInc: ic.inc, HasInc: ic.has, Opp: own*3 + 11, OppInc: map[bool]int64{true: 5, false: 0}[ic.has]})
+			}
+		}
+		out = append(out, c14Case{White: true, Own: own, MoveTime: own, WithClk: false})
+		out = append(out, c14Case{White: false, Own: own, MoveTime: own, WithClk: true, Opp: 7})
+	}
+	return out
+}
